@@ -227,6 +227,7 @@ func runC16(c *Ctx) {
 		ruleEncoderPure(c, p, "C16.pure")
 		ruleResetReceiver(c, p, "C16.reset-recv")
 		ruleWriterInvariant(c, p, "C16.writer")
+		ruleChainScratch(c, p, "C16.chain-scratch")
 	}
 	p := c.Prog(core.CfgDefault)
 	if p == nil {
@@ -683,6 +684,48 @@ func runC18(c *Ctx) {
 		}
 		return false, false
 	})
+	// the same comparison inside a boolean helper of package proto (`if !s.fits(b)`): both edges of the
+	// test are candidates, the clause below keeps the one whose other side can fail (what the helper
+	// computes is decided case by case in C18.count)
+	for _, b := range dr.Blocks {
+		ifi, ok := b.Instrs[len(b.Instrs)-1].(*ssa.If)
+		if !ok {
+			continue
+		}
+		cv, _ := core.StripNot(ifi.Cond)
+		cl, ok := cv.(*ssa.Call)
+		if !ok {
+			continue
+		}
+		g := core.StaticFn(cl)
+		if g == nil || g.Blocks == nil || pkgOf(g) == nil || pkgOf(g).Path() != core.PkgProto {
+			continue
+		}
+		has := false
+		for _, gb := range g.Blocks {
+			for _, gi := range gb.Instrs {
+				bo, ok := gi.(*ssa.BinOp)
+				if !ok || (bo.Op != token.NEQ && bo.Op != token.EQL) {
+					continue
+				}
+				isLen := func(x ssa.Value) bool {
+					c2, ok := stripConv(x).(*ssa.Call)
+					if !ok {
+						return false
+					}
+					bi, ok := c2.Call.Value.(*ssa.Builtin)
+					return ok && bi.Name() == "len"
+				}
+				isCols := func(x ssa.Value) bool { return strings.HasSuffix(core.FieldOrigin(stripConv(x), 0), "Block.Columns") }
+				if isLen(bo.X) && isCols(bo.Y) || isLen(bo.Y) && isCols(bo.X) {
+					has = true
+				}
+			}
+		}
+		if has {
+			countOK = append(countOK, core.Edge{B: b, Succ: 0}, core.Edge{B: b, Succ: 1})
+		}
+	}
 	for _, s := range sinks {
 		key := core.CallKey(dr, s.(ssa.CallInstruction))
 		var why []string
@@ -838,6 +881,7 @@ func runC18(c *Ctx) {
 	ruleColumnCount(c, p, "C18.colcount")
 	ruleConflictsSymm(c, p, "C18.symm")
 	ruleLenientWidth(c, p, "C18.lenient")
+	ruleVersionPassThrough(c, p, "C18.version-through")
 	ruleWrapperElem(c, p, "C18.wrapper-elem")
 	ruleEndMarker(c, p, "C18.endmarker")
 	ruleCountCases(c, p, "C18.count")
@@ -1366,6 +1410,21 @@ func ruleCountCases(c *Ctx, p *core.Program, rule string) {
 	for _, k := range cases {
 		k := k
 		feas := core.FeasibleUnder(fn, func(cond ssa.Value) int {
+			// the check may live in a boolean helper over the same three quantities: fold it for this case
+			if cl, isCall := cond.(*ssa.Call); isCall {
+				if g := core.StaticFn(cl); g != nil && g.Blocks != nil && pkgOf(g) != nil && pkgOf(g).Path() == core.PkgProto {
+					lens := map[int]int64{}
+					for i, a := range cl.Call.Args {
+						if core.DependsOn(a, func(x ssa.Value) bool { return x == ssa.Value(recv) }, false) || a == ssa.Value(recv) {
+							lens[i] = k.targets
+						}
+					}
+					if v, okf := core.FoldFuncLens(g, map[string]int64{"Columns": k.cols, "Rows": k.rows}, nil, lens); okf {
+						return int(v)
+					}
+				}
+				return -1
+			}
 			bo, ok := cond.(*ssa.BinOp)
 			if !ok {
 				return -1
